@@ -60,6 +60,17 @@ def histOp (t : String) : Option HOp :=
   else if k = 'm' then some (if a = 0 then .moveKeepNew else .moveKeepOld)
   else none
 
+def handleUkfc : Option (R String) := some do
+      let kind ← nat; let K ← nat; let I ← layout3
+      let cK ← nat; let C ← layout3
+      let M ← mmod
+      if kind = 2 then do
+        let sub ← nat; let reduced ← bool; done
+        pure (fmt (decide (sukfValid I K C cK M sub reduced)) (sukfCase I K C cK M sub reduced))
+      else do
+        done
+        pure (fmt (decide (ukfValid (kind = 1) I K C cK M)) (ukfCase (kind = 1) I K C cK M))
+
 def handleR (op : String) : Option (R String) :=
   match op with
   | "b_wna_noise" => some do
@@ -116,16 +127,8 @@ def handleR (op : String) : Option (R String) :=
   | "b_utmm" => some do
       let kind ← nat; let K ← nat; let I ← layout4; let wdof ← nat; let M ← mmod; done
       pure (fmt (decide (utmmValid (kind != 0) K I wdof M)) (utmmCase (kind != 0) K I wdof M))
-  | "b_ukfc" => some do
-      let kind ← nat; let K ← nat; let I ← layout3
-      let cK ← nat; let C ← layout3
-      let M ← mmod
-      if kind = 2 then do
-        let sub ← nat; let reduced ← bool; done
-        pure (fmt (decide (sukfValid I K C cK M sub reduced)) (sukfCase I K C cK M sub reduced))
-      else do
-        done
-        pure (fmt (decide (ukfValid (kind = 1) I K C cK M)) (ukfCase (kind = 1) I K C cK M))
+  | "b_ukfcmv" => handleUkfc
+  | "b_ukfc" => handleUkfc
   | "b_corrseq" => some do
       -- kind dl dc quat  <mmod>  [sub reduced]  n (K mv pv iv)*
       let kind ← nat; let I ← layout3; let M ← mmod
@@ -141,6 +144,43 @@ def handleR (op : String) : Option (R String) :=
   | "b_lm_seq" => some do
       let n ← nat; let comps ← natList; let nums ← natList; done
       pure (fmt true (lmSeqCase n comps nums))
+  | "b_psaddself" => some do
+      let K ← nat; let L ← layout3; done
+      pure (fmt true (psaddselfCase K L))
+  | "b_gmaugalias" => some do
+      let K ← nat; let L ← layout3; done
+      pure (fmt (decide (1 ≤ K)) (gmaugAliasCase K L))
+  | "b_linprop" => some do
+      let fn ← nat; let sr ← nat; let num ← nat; let pr ← nat; let pc ← nat; let sS ← bool; let hE ← bool; let sE ← bool; done
+      if fn = 0 then pure (fmt false (pure none))
+      else pure (fmt (decide (linpropValid fn sr num pr pc)) (linpropCase fn sr num pr pc sS hE sE))
+  | "b_kfp" => some do
+      let K ← nat; let I ← layout3; let pK ← nat; let P ← layout3; let fn ← nat; let sm ← nat; let exo ← bool; let alias ← bool; done
+      match SkipMode.ofNat? sm with
+      | none => failure
+      | some m => pure (fmt (decide (kfpValid I K P pK fn m exo alias)) (kfpCase I K P pK fn m exo alias))
+  | "b_ukfp" => some do
+      let kind ← nat; let K ← nat; let I ← layout3; let n ← nat; let qn ← nat; let D ← layout3; let inoise ← nat; let skip ← bool; done
+      pure (fmt (decide (ukfpValid (kind != 0) I K n qn D inoise)) (ukfpCase (kind != 0) I K n qn D inoise skip))
+  | "b_gpfp" => some do
+      let K ← nat; let I ← layout3; let pK ← nat; let P ← layout3; let fn ← nat; done
+      pure (fmt (decide (gpfpValid I K P pK fn)) (gpfpCase I K P pK fn))
+  | "b_draw" => some do
+      let d ← dim; let N ← nat; let I ← layout3; let pN ← nat; let P ← layout3; let exo ← bool; done
+      pure (fmt (decide (drawValid d I N P pN)) (drawCase d I N P pN exo))
+  | "b_glik" => some do
+      let N ← nat; let sr ← nat; let M ← mmod; done
+      pure (fmt (decide (glikValid M)) (glikCase N sr M))
+  | "b_boot" => some do
+      let N ← nat; let I ← layout3; let _cN ← nat; let _C ← layout3; let _alias ← bool; let M ← mmod; done
+      pure (fmt (decide (bootValid I M)) (bootCase I N M))
+  | "b_gpfc" => some do
+      let d ← dim; let N ← nat; let cN ← nat; let hm ← nat; let ysize ← nat; let mv ← bool; let alias ← bool; done
+      let cN' := if alias then N else cN
+      pure (fmt (decide (gpfcValid N cN' hm ysize)) (gpfcCase d N cN' hm ysize mv))
+  | "b_sis" => some do
+      let N ← nat; let lin ← nat; let circ ← nat; let d ← dim; let nx ← nat; let ny ← nat; let hm ← nat; let steps ← nat; done
+      pure (fmt (decide (sisValid N lin circ d hm)) (sisCase N lin circ d nx ny hm steps (fun _ => true) (fun _ _ => true)))
   | "b_kfc" => some do
       let K ← nat; let I ← layout3; let cK ← nat; let C ← layout3
       let hm ← nat; let hn ← nat; let ysize ← nat; let mv ← bool; done
